@@ -3,12 +3,13 @@
    For these terms the range law 0 <= mu x <= h of C03 (proved over R in C03a/C03b) holds only UP TO ROUNDING:
    each is refuted by a concrete binary64 witness with finite valid parameters of magnitude <= 2^100 and height 1
    (kernel-checked by vm_compute).  Constant is exact.
-     SShape / PiShape : start, end adjacent doubles, x = end -> 2*h          (midpoint 0.5*(s+e) evaluates to e)
+     SShape / PiShape : the 2*h defect at x = end (adjacent start/end) is REPAIRED in /repo; documented on a pinned copy of
+                        the old kernel.  After the fix: neither proved nor refuted (no violation in the search)
      Concave          : (e - i) / ((2e - i) - x) = 1 + 2^-52 just before end
      SemiEllipse      : 1 + 2^-52 at the centre of (0.3, 1.5);  NaN for a finite x when (e-s)/2 underflows to 0
      Arc              : only by UNDERFLOW of r*r (|r| < 2^-511); no violation found for |r| >= 2^-500 (not proved: needs
                         RN(sqrt(RN(r*r))) = |r|)
-   Neither proved nor refuted: ZShape (no counterexample in a search over adjacent-double and random parameters). *)
+   Neither proved nor refuted: ZShape, SShape, PiShape (no counterexample in a search over adjacent-double and random parameters). *)
 From Coq Require Import Floats.
 From VF Require Import Num NumF GenTerm TermFloat2.
 Local Open Scope float_scope.
@@ -17,15 +18,17 @@ Theorem C03f_Constant_float : forall m tbl v x, @shape_membership _ (NumF m tbl)
 Proof. exact Constant_float. Qed.
 Print Assumptions C03f_Constant_float.
 
-Theorem C03f_SShape_range_refuted : forall m tbl,
-  @shape_membership _ (NumF m tbl) (Sh_SShape 0x1.0000000000001p+0 0x1.0000000000002p+0 1) 0x1.0000000000002p+0 = 2.
-Proof. exact SShape_range_witness. Qed.
-Print Assumptions C03f_SShape_range_refuted.
-
-Theorem C03f_PiShape_range_refuted : forall m tbl,
-  @shape_membership _ (NumF m tbl) (Sh_PiShape 0x1.0000000000001p+0 0x1.0000000000002p+0 2 3 1) 0x1.0000000000002p+0 = 2.
-Proof. exact PiShape_range_witness. Qed.
-Print Assumptions C03f_PiShape_range_refuted.
+(* the defect REPAIRED in /repo (SShape gave 2*h at x = end for adjacent start/end), on an explicit copy of the pre-fix kernel;
+   the repaired kernel (and PiShape, which is built from it) answers h at the same point *)
+Theorem C03f_SShape_pinned_defect : forall m tbl,
+  @SShape_membership_pinned _ (NumF m tbl) 0x1.0000000000001p+0 0x1.0000000000002p+0 1 0x1.0000000000002p+0 = 2.
+Proof. exact SShape_pinned_range_witness. Qed.
+Print Assumptions C03f_SShape_pinned_defect.
+Theorem C03f_SShape_repaired_at_witness : forall m tbl,
+  @shape_membership _ (NumF m tbl) (Sh_SShape 0x1.0000000000001p+0 0x1.0000000000002p+0 1) 0x1.0000000000002p+0 = 1 /\
+  @shape_membership _ (NumF m tbl) (Sh_PiShape 0x1.0000000000001p+0 0x1.0000000000002p+0 2 3 1) 0x1.0000000000002p+0 = 1.
+Proof. exact SShape_fixed_at_witness. Qed.
+Print Assumptions C03f_SShape_repaired_at_witness.
 
 Theorem C03f_Concave_range_refuted : forall m tbl,
   @shape_membership _ (NumF m tbl) (Sh_Concave (-2) 0x1.999999999999ap-3 1) 0x1.9999999999999p-3 = 0x1.0000000000001p+0.
